@@ -55,7 +55,7 @@ class Prog:
         self.decls, self.funcs = decls, funcs
 
 
-ATOMIC = {'b', 'i', 'l', 'f', 'd', 'c', 's', 'id', 'call', 'sup', 'seq', 'attr', 'deref', 'ev', 'proj', 'slice', 'range'}
+ATOMIC = {'ctor', 'b', 'i', 'l', 'f', 'd', 'c', 's', 'id', 'call', 'sup', 'seq', 'attr', 'deref', 'ev', 'proj', 'slice', 'range'}
 
 
 def atom(e):
@@ -270,6 +270,29 @@ class Printer:
                 self.w(" : ")
                 f = self.expr(e.a[2])
             return "(cond %d %s %s %s)" % (e.ln, c, t, f)
+        if k == 'ctor':
+            e.ln = self.line
+            self.w("%s::%s(" % (e.a[0], e.a[1]))
+            a = self.exprs(e.a[2])
+            self.w(")")
+            return "(ctor %d (id %d %s) %s%s)" % (e.ln, e.ln, e.a[0], e.a[1], (" " + a) if a else "")
+        if k == 'ifletrec':
+            # a = [en, it, binds, e, t, f]
+            e.ln = self.line
+            self.w("if let (")
+            gl = self.line
+            for b in e.a[2]:
+                b[1] = gl
+            self.w("%s::%s(%s) = " % (e.a[0], e.a[1], ", ".join(b[0] for b in e.a[2])))
+            x = self.expr(e.a[3])
+            self.w(")")
+            self.maybe_nl(0.3)
+            t = self.expr(e.a[4])
+            self.maybe_nl(0.3)
+            self.w("else")
+            self.maybe_nl(0.3)
+            f = self.expr(e.a[5])
+            return "(ifletrec %d %d %s %s (%s) %s %s %s)" % (e.ln, gl, e.a[0], e.a[1], " ".join("(%d %s)" % (b[1], b[0]) for b in e.a[2]), x, t, f)
         if k == 'iflet':
             # if let (En::it = e) t else f     a = [en, it, e, t, f]; the guard and the expression at the `if` line's successors
             e.ln = self.line
@@ -341,6 +364,12 @@ class Printer:
                     self.w("%s::%s -> " % (g.a[0], g.a[1]))
                     x = self.expr(g.a[2])
                     gs.append("(g %d %s %s %s)" % (g.ln, g.a[0], g.a[1], x))
+                elif g.k == 'grec':
+                    for b in g.a[2]:
+                        b[1] = self.line
+                    self.w("%s::%s(%s) -> " % (g.a[0], g.a[1], ", ".join(b[0] for b in g.a[2])))
+                    x = self.expr(g.a[3])
+                    gs.append("(grec %d %s %s (%s) %s)" % (g.ln, g.a[0], g.a[1], " ".join("(%d %s)" % (b[1], b[0]) for b in g.a[2]), x))
                 else:
                     self.w("else -> ")
                     x = self.expr(g.a[0])
@@ -528,15 +557,27 @@ class Printer:
             d.ln = self.line
             if d.k == 'enum':
                 self.w("enum %s { " % d.name)
-                its = []
+                its, recs = [], []
                 for i, it in enumerate(d.items):
                     if i:
                         self.w(", ")
                     it[1] = self.line
                     self.w(it[0])
                     its.append("(%d %s)" % (it[1], it[0]))
+                    if len(it) > 2 and it[2]:
+                        # a record enumerator:  B { x : int; y : string; }
+                        self.w(" { ")
+                        fs = []
+                        for fld in it[2]:
+                            fld.ln = self.line
+                            self.param(fld.name, fld.cst, fld.ty)
+                            self.w("; ")
+                            fs.append("(%d %s %s %s)" % (fld.ln, fld.name, fld.cst, self.sx_ty(fld.ty, fld.ln)))
+                        self.w("}")
+                        recs.append("(enumrec %d %s %s %s)" % (it[1], d.name, it[0], " ".join(fs)))
                 self.w(" }")
                 ds.append("(enum %d %s %s)" % (d.ln, d.name, " ".join(its)))
+                ds.extend(recs)
             else:
                 self.w("record %s" % d.name)
                 self.nl()
@@ -607,6 +648,7 @@ class Gen:
         self.rng = rng
         self.cnt = 0
         self.enums = {}      # name -> [items]
+        self.erec = {}       # (enum, item) -> [P]: the enumerators that are records
         self.records = {}    # name -> [P]
         self.scopes = []     # list of dict name -> V
         self.sites = []
@@ -684,6 +726,15 @@ class Gen:
             t = self.rand_simple()
             if t not in ('long', 'double'):
                 return t
+
+    def plain(self):
+        """enums without record enumerators (the only ones used as numbers)"""
+        return [e for e in sorted(self.enums) if not any((e, it) in self.erec for it in self.enums[e])]
+
+    def binds_scope(self, en, it):
+        fs = self.erec[(en, it)]
+        bs = [[self.fresh('m'), 0] for _ in fs]
+        return bs, {b[0]: V(resolved(f.ty), cst_of_p(norm_v(f.cst)), 'bind') for b, f in zip(bs, fs)}
 
     def rand_tuple(self):
         n = self.rng.range(1, 3)
@@ -768,7 +819,11 @@ class Gen:
         if isinstance(t, str):
             return lit(t, rng)
         if t[0] == 'enum':
-            return N('ev', N('id', t[1]), rng.choice(self.enums[t[1]]), ty=t)
+            it = rng.choice(self.enums[t[1]])
+            if (t[1], it) in self.erec:
+                self.stat('mk_ctor')
+                return N('ctor', t[1], it, [self.expr(f.ty, max(d - 1, 0)) for f in self.erec[(t[1], it)]], ty=t)
+            return N('ev', N('id', t[1]), it, ty=t)
         if t[0] == 'rec':
             args = [self.expr(p.ty, max(d - 1, 0)) for p in self.records[t[1]]]
             return N('call', N('id', t[1]), args, ty=t)
@@ -859,8 +914,8 @@ class Gen:
                 # never a constant zero divisor (constant reduction rejects it): a positive literal
                 rr = N({'int': 'i', 'long': 'l', 'float': 'f', 'double': 'd'}[rt],
                        {'int': '%d', 'long': '%dL', 'float': '%d.5', 'double': '%d.5d'}[rt] % rng.range(1, 9), ty=rt)
-            elif t == 'int' and self.enums and rng.chance(0.1) and op in ('add', 'sub', 'mul'):
-                rr = self.expr(('enum', rng.choice(sorted(self.enums))), 0)
+            elif t == 'int' and self.plain() and rng.chance(0.1) and op in ('add', 'sub', 'mul'):
+                rr = self.expr(('enum', rng.choice(self.plain())), 0)
             else:
                 rr = self.expr(rt, d1)
             return mkbin(op, l, rr, t)
@@ -877,12 +932,12 @@ class Gen:
                     return mkbin(rng.choice(['lt', 'gt', 'lte', 'gte']), self.expr('char', d1), self.expr('char', d1), 'bool')
                 return mkbin(rng.choice(['lt', 'gt', 'lte', 'gte']), self.expr(rng.choice(NUM), d1), self.expr(rng.choice(NUM), d1), 'bool')
             if c == 'eq':
-                k = rng.weighted([('num', 4), ('bool', 2), ('char', 1), ('string', 2), ('enum', 2 if self.enums else 0)])
+                k = rng.weighted([('num', 4), ('bool', 2), ('char', 1), ('string', 2), ('enum', 2 if self.plain() else 0)])
                 op = rng.choice(['eq', 'neq'])
                 if k == 'num':
                     return mkbin(op, self.expr(rng.choice(NUM), d1), self.expr(rng.choice(NUM), d1), 'bool')
                 if k == 'enum':
-                    en = ('enum', rng.choice(sorted(self.enums)))
+                    en = ('enum', rng.choice(self.plain()))
                     return mkbin(op, self.expr(en, d1), self.expr(en, d1), 'bool')
                 return mkbin(op, self.expr(k, d1), self.expr(k, d1), 'bool')
             return mkbin(rng.choice(['and', 'or']), self.expr('bool', d1), self.expr('bool', d1), 'bool')
@@ -1000,6 +1055,11 @@ class Gen:
         if use_else:
             items = items[:self.rng.below(len(items))]
         for it in items:
+            if (en, it) in self.erec:
+                bs, sc = self.binds_scope(en, it)
+                self.stat('guard_record')
+                gs.append(N('grec', en, it, bs, self.block(t, d - 1, 'arm', extra_scope=sc)))
+                continue
             if self.rng.chance(0.4):
                 arm = self.block(t, d - 1, 'arm')
             else:
@@ -1017,6 +1077,12 @@ class Gen:
         en = self.rng.choice(sorted(self.enums))
         s = self.expr(('enum', en), max(d - 1, 0))
         self.stat('iflet')
+        recs = [it for it in self.enums[en] if (en, it) in self.erec]
+        if recs and self.rng.chance(0.6):
+            it = self.rng.choice(recs)
+            bs, sc = self.binds_scope(en, it)
+            self.stat('iflet_record')
+            return N('ifletrec', en, it, bs, s, self.block(t, d - 1, 'if', extra_scope=sc), self.block(t, d - 1, 'if'), ty=t)
         return N('iflet', en, self.rng.choice(self.enums[en]), s, self.block(t, d - 1, 'if'), self.block(t, d - 1, 'if'), ty=t)
 
     def e_intstmt(self, t, d):
@@ -1261,7 +1327,14 @@ class Gen:
             nm = "E%d" % i
             items = ["%s_%s" % (nm, c) for c in "ABCD"[:rng.range(2, 4)]]
             self.enums[nm] = items
-            decls.append(D('enum', nm, [[x, 0] for x in items]))
+            ditems = []
+            for x in items:
+                fs = None
+                if rng.chance(0.3):
+                    fs = [P("x%d" % j, rng.weighted([('d', 6), ('c', 1), ('v', 1)]), self.rand_scalar()) for j in range(rng.range(1, 2))]
+                    self.erec[(nm, x)] = fs
+                ditems.append([x, 0, fs])
+            decls.append(D('enum', nm, ditems))
         for i in range(rng.below(3)):
             nm = "R%d" % i
             fs = []
@@ -1371,6 +1444,7 @@ RULES = ['assign_let', 'assign_param', 'call_arity', 'call_kind', 'undef_name', 
          # D11
          'branch_tuple', 'branch_range', 'branch_elem', 'tuple_arity', 'tuple_index', 'array_ragged', 'forin_iter_assign',
          'pipe_arity', 'pipe_tuple_arity', 'match_after_else', 'elem_long_double',
+         'guard_bind_count', 'guard_other_enum', 'ctor_arity', 'ctor_kind',
          # round 2
          'empty_unit', 'func_noname']
 
@@ -1690,7 +1764,7 @@ class Mutator:
         g, rng = self.g, self.rng
         if not g.enums:
             return None
-        cands = [(m, en, env, path) for (m, en, env, path) in g.matches if all(x.k == 'g' for x in m.a[1]) and len(m.a[1]) >= 2]
+        cands = [(m, en, env, path) for (m, en, env, path) in g.matches if all(x.k in ('g', 'grec') for x in m.a[1]) and len(m.a[1]) >= 2]
         if cands and rng.chance(0.5):
             m, en, env, path = rng.choice(cands)
             it = rng.below(len(m.a[1]))
@@ -1708,7 +1782,7 @@ class Mutator:
         if s.k not in ('id', 'call', 'sup'):
             s = N('sup', s, ty=s.ty)
         t = g.rand_scalar()
-        gs = [N('g', en, it, atom(g.expr(t, 1))) for i, it in enumerate(items) if i != drop]
+        gs = [self._guard(en, it, atom(g.expr(t, 1))) for i, it in enumerate(items) if i != drop]
         bad = N('match', s, gs, ty=t)
         self.insert(site, bad)
         return Mutant('match_missing', self.p, bad, 'matchMissing', site.path, "inserted without " + items[drop])
@@ -1994,6 +2068,88 @@ class Mutator:
         site.seq.a[0].insert(site.idx, f)
         return Mutant('elem_long_double', self.p, bad, 'callMismatch', site.path, "%s as %s, form %d" % (b, a, form))
 
+    # -- enum records
+    def _guard(self, en, it, arm, delta=0):
+        """a guard for the enumerator: a record guard with as many binds as fields (+ delta) when it is a record"""
+        if (en, it) in self.g.erec:
+            n = max(0, len(self.g.erec[(en, it)]) + delta)
+            return N('grec', en, it, [[self.g.fresh('m'), 0] for _ in range(n)], arm)
+        return N('g', en, it, arm)
+
+    def _scrut(self, en):
+        s = self.g.expr(('enum', en), 0)
+        return s if s.k in ('id', 'call', 'sup', 'ctor') else N('sup', s, ty=s.ty)
+
+    def guard_bind_count(self):
+        """a record guard with too few / too many binds, in a match or an if-let (52cb4aa)"""
+        g, rng = self.g, self.rng
+        if not g.erec:
+            return None
+        site = self._site()
+        if site is None:
+            return None
+        en, it = rng.choice(sorted(g.erec))
+        nf = len(g.erec[(en, it)])
+        delta = rng.choice([-1, 1, 2] if nf > 1 else [1, 2])
+        t = g.rand_scalar()
+        if rng.chance(0.4):
+            bad = N('ifletrec', en, it, [[g.fresh('m'), 0] for _ in range(nf + delta)], self._scrut(en),
+                    N('seq', [g.expr(t, 0)], ty=t), N('seq', [g.expr(t, 0)], ty=t), ty=t)
+            self.insert(site, bad)
+            return Mutant('guard_bind_count', self.p, bad, 'guardBinds', site.path, "if-let %+d" % delta)
+        gs = [self._guard(en, x, atom(g.expr(t, 0)), delta if x == it else 0) for x in g.enums[en]]
+        bad = [x for x in gs if x.a[1] == it][0]
+        self.insert(site, N('match', self._scrut(en), gs, ty=t))
+        return Mutant('guard_bind_count', self.p, bad, 'guardBinds', site.path, "match %+d" % delta)
+
+    def guard_other_enum(self):
+        """a guard (item or record) of another enum than the matched value (enums are different)"""
+        g, rng = self.g, self.rng
+        if len(g.enums) < 2:
+            return None
+        site = self._site()
+        if site is None:
+            return None
+        en, other = rng.choice([(a, b) for a in sorted(g.enums) for b in sorted(g.enums) if a != b])
+        t = g.rand_scalar()
+        gs = [self._guard(en, x, atom(g.expr(t, 0))) for x in g.enums[en]]
+        bad = self._guard(other, rng.choice(g.enums[other]), atom(g.expr(t, 0)))
+        gs.insert(rng.below(len(gs) + 1), bad)
+        if rng.chance(0.3):
+            gs.append(N('else', atom(g.expr(t, 0))))
+        self.insert(site, N('match', self._scrut(en), gs, ty=t))
+        return Mutant('guard_other_enum', self.p, bad, 'matchGuardDiffers', site.path, other)
+
+    def _ctor(self, kind):
+        g, rng = self.g, self.rng
+        if not g.erec:
+            return None
+        site = self._site()
+        if site is None:
+            return None
+        en, it = rng.choice(sorted(g.erec))
+        fs = g.erec[(en, it)]
+        args = [g.expr(f.ty, 1) for f in fs]
+        bad = N('ctor', en, it, args, ty=('enum', en))
+        if kind == 'arity':
+            if len(args) > 1 and rng.chance(0.5):
+                args.pop(rng.below(len(args)))
+            else:
+                args.insert(rng.below(len(args) + 1), g.expr(g.rand_scalar(), 0))
+            self.insert(site, bad)
+            return Mutant('ctor_arity', self.p, bad, 'enumCreate', site.path, "%s::%s" % (en, it))
+        i = rng.below(len(fs))
+        badty, how = rng.choice([c for c in incompatible_arg_types(fs[i].ty, g) if c[1] == 'kind'])
+        args[i] = g.expr(badty, 1)
+        self.insert(site, bad)
+        return Mutant('ctor_kind', self.p, args[i], 'paramKind', site.path, "%s::%s arg %d" % (en, it, i))
+
+    def ctor_arity(self):
+        return self._ctor('arity')
+
+    def ctor_kind(self):
+        return self._ctor('kind')
+
     def empty_unit(self):
         """every function deleted: a main unit of declarations only (bad4904)"""
         if not self.p.decls:
@@ -2085,7 +2241,7 @@ class Mutator:
 # (branch kinds, array elements, indices, qualifiers, redefinitions, constness of bindings, …).
 
 EXPR_KINDS = {'b', 'i', 'l', 'f', 'd', 'c', 's', 'id', 'ev', 'un', 'bin', 'sup', 'cond', 'ass', 'while', 'forin', 'call',
-              'fun', 'seq', 'attr', 'match', 'arr', 'deref', 'lc', 'tuple', 'proj', 'range', 'slice', 'pipe', 'iflet'}
+              'fun', 'seq', 'attr', 'match', 'arr', 'deref', 'lc', 'tuple', 'proj', 'range', 'slice', 'pipe', 'iflet', 'ifletrec', 'ctor'}
 
 
 def expr_slots(prog):
@@ -2101,6 +2257,16 @@ def expr_slots(prog):
             out.append((n.a, 1)); node(n.a[1]); return
         if k in ('g',):
             out.append((n.a, 2)); node(n.a[2]); return
+        if k == 'grec':
+            out.append((n.a, 3)); node(n.a[3]); return
+        if k == 'ifletrec':
+            for i in (3, 4, 5):
+                out.append((n.a, i)); node(n.a[i])
+            return
+        if k == 'ctor':
+            for j, x in enumerate(n.a[2]):
+                out.append((n.a[2], j)); node(x)
+            return
         if k in ('else', 'flt'):
             out.append((n.a, 0)); node(n.a[0]); return
         if k == 'gen':
